@@ -199,6 +199,10 @@ pub struct Plan {
     /// every 32-byte getrandom request (a generator seed) is answered with
     /// exactly these bytes (hex): adversarial entropy chosen by the harness
     pub seed_entropy: Option<String>,
+    /// descriptor capacity: a descriptor-creating call of the library fails with EMFILE whenever
+    /// this many descriptors (below the harness's own) are open already - RLIMIT_NOFILE as a fault
+    /// that comes and goes with the depth of the library's own recursion
+    pub fd_cap: Option<usize>,
 }
 
 impl Plan {
@@ -211,6 +215,7 @@ impl Plan {
             "eagain": self.eagain.map(|(i, k)| json!([i, k])),
             "dup_entropy": self.dup_entropy,
             "seed_entropy": self.seed_entropy,
+            "fd_cap": self.fd_cap,
         })
     }
     pub fn from_json(v: &Value) -> Plan {
@@ -230,6 +235,7 @@ impl Plan {
             eagain: v.get("eagain").and_then(|s| s.as_array()).map(|a| (a[0].as_u64().unwrap_or(0) as usize, a[1].as_u64().unwrap_or(0) as usize)),
             dup_entropy: v.get("dup_entropy").and_then(|x| x.as_bool()).unwrap_or(false),
             seed_entropy: v.get("seed_entropy").and_then(|x| x.as_str()).map(|s| s.to_string()),
+            fd_cap: v.get("fd_cap").and_then(|x| x.as_u64()).map(|x| x as usize),
         }
     }
 }
@@ -1374,6 +1380,11 @@ impl Universe {
                 if let Some((from, e)) = input.plan.sticky {
                     if step >= from && is_fd_creating(nr, &n.data.args) {
                         fault = Some(Fault::Errno(e));
+                    }
+                }
+                if let Some(cap) = input.plan.fd_cap {
+                    if is_fd_creating(nr, &n.data.args) && (0..HARNESS_FD_MIN).filter(|fd| sys::fcntl_getfd(*fd) >= 0).count() >= cap {
+                        fault = Some(Fault::Errno(libc::EMFILE));
                     }
                 }
                 if let Some(sd) = &sdec {
